@@ -456,6 +456,14 @@ def corpus(ctx):
         kind, text = make_failing(r, r.choice(valid))
         out.append({"text": text, "spl": True, "expect": kind, "origin": "failing:" + kind})
     out += dirty_programs()
+    # calls with exactly two (three) offending named arguments, always present whatever the random programs hold: which of
+    # them the diagnostic names must not vary from run to run
+    for body in ("let t = ipv4::tcp::flow(1.2.3.4:1, 1.2.3.5:2);\nt.client_message(send_ack: \"yes\", frag_off: \"none\", \"hello\");\n",
+                 "ipv4::datagram(1.2.3.4, 1.2.3.5, ttl: \"x\", id: \"y\", proto: \"z\", \"p\");\n",
+                 "let u = ipv4::udp::flow(1.2.3.4:1, 1.2.3.5:2);\nu.client_dgram(csum: \"no\", frag_off: 1.2.3.4, \"p\");\n",
+                 "ipv4::datagram(1.2.3.4, 1.2.3.5, bogus_a: 1, bogus_b: 2, \"p\");\n",
+                 "let t = ipv4::tcp::flow(1.2.3.4:1, 1.2.3.5:2, cl_seq: \"a\", sv_seq: \"b\");\n"):
+        out.append({"text": "import ipv4;\n" + body, "spl": True, "expect": "any", "origin": "failing:named"})
     # run-time failures that name something of the environment: data files by RELATIVE name that are missing, are a
     # directory, or sit under a file -- the diagnostic is a function of the source, not of where the compiler is started
     for k, nm in enumerate(["data/nosuch.bin", "nosuch.bin", "./x/../nosuch", ".", "..", "../..", "p000.rsyn/under-a-file"]):
